@@ -84,7 +84,18 @@ def relabel(recs, kind, rng):
     if kind == "chain-rename":
         # monotone map: sorted ids -> sorted new ids
         srt = sorted(chains)
-        pool = sorted(rng.sample("ABCDEFGHIJKLMNOPQRSTUVWXYZabcdefghij0123456789", len(srt)))
+        u = rng.random()
+        if u < 0.25:
+            # identifiers that differ only in case
+            letters = rng.sample("ABCDEFGH", (len(srt) + 1) // 2)
+            pool = sorted([c for l in letters for c in (l, l.lower())][:len(srt)])
+        elif u < 0.5:
+            # the first chain becomes the blank identifier, 'A' is in use as well
+            pool = sorted(set([" ", "A"] + rng.sample("BCDEFGHIJKLMNOPQRSTUVWXYZ", max(0, len(srt) - 2))))[:len(srt)]
+            if len(pool) < len(srt):
+                pool = sorted(rng.sample("ABCDEFGHIJKLMNOPQRSTUVWXYZ", len(srt)))
+        else:
+            pool = sorted(rng.sample("ABCDEFGHIJKLMNOPQRSTUVWXYZabcdefghij0123456789", len(srt)))
         m = dict(zip(srt, pool))
         for r in recs:
             if r.raw is None:
@@ -98,7 +109,7 @@ def relabel(recs, kind, rng):
         sh = {}
         for c in chains:
             choices = [rng.randrange(-50, 50), -lo[c] - rng.randrange(0, (hi[c] - lo[c]) + 1), -999 - lo[c], 9999 - hi[c],
-                       rng.randrange(100, 3000), 0, 1, -1]
+                       rng.randrange(100, 3000), 0, 1, -1, -(lo[c] + hi[c]) // 2, -(lo[c] + hi[c]) // 2]
             prev = chains[chains.index(c) - 1] if chains.index(c) > 0 else None
             if prev is not None:
                 # coincidences between neighbouring chains: the first number of this chain equals
@@ -149,9 +160,9 @@ def run_case(case, tier):
     elif case["kind"] == "cutout":
         recs = sources.random_small_structure(rng, 80, 900)
     elif case["kind"] == "chimera":
-        recs, _ = sources.chimera(rng, allow_blank=False)
+        recs, _ = sources.chimera(rng, allow_blank=True)
     else:
-        base = sources.random_small_structure(rng, 80, 700) if rng.random() < 0.6 else sources.chimera(rng, allow_blank=False)[0]
+        base = sources.random_small_structure(rng, 80, 700) if rng.random() < 0.6 else sources.chimera(rng, allow_blank=True)[0]
         recs, ntw = make_twins(base, rng)
     if not sources.identities_unique(recs):
         return util.finish(case, viol, counts, classes, False, {"skipped": "two residues share one identity"},
